@@ -197,7 +197,7 @@ def check_division(ctx, chk):
                                     e2[left.left.id] = iv.refine_nonzero(e2[left.left.id])
                     child, q = q, parents.get(q)
                 d = iv.evaluate(n.right, e2, consts)
-                construct = f"ScenarioGenerator.{name}: {ast.unparse(n)}"
+                construct = f"ScenarioGenerator.{name}: {alpha_norm(n)}"
                 loc = f"{m.module.path}:{n.lineno}"
                 if d is iv.TOP or (d.lo == -iv.INF and d.hi == iv.INF):
                     chk.undecided("C15.division", construct,
@@ -207,6 +207,19 @@ def check_division(ctx, chk):
                            f"denominator {ast.unparse(n.right)} ranges over {d} on the documented "
                            "parameter domain, which contains 0", loc)
     chk.floor("C15.division", n_sites, 5, "division sites")
+
+
+def alpha_norm(expr):
+    """source text of an expression with its local variable names replaced by v1, v2, ... in order
+    of first appearance (a finding is not re-keyed by renaming a parameter)"""
+    import copy
+    e = copy.deepcopy(expr)
+    names = {}
+    for n in ast.walk(e):
+        if isinstance(n, ast.Name):
+            names.setdefault(n.id, f"v{len(names) + 1}")
+            n.id = names[n.id]
+    return ast.unparse(e)
 
 
 def local_env(m, penv, consts):
@@ -256,6 +269,9 @@ def check_loops(ctx, chk):
             kind, detail = classify_while(m, w, gcls)
             bound_txt = ast.unparse(w.test.comparators[0]) if isinstance(w.test, ast.Compare) \
                 and len(w.test.comparators) == 1 else cond
+            if bound_txt in m.params:
+                # name the bound by its position: renaming the parameter is not a new finding
+                bound_txt = f"parameter {m.params.index(bound_txt)} of the method"
             construct = f"ScenarioGenerator.{name}: while-loop bounded by {bound_txt} [{kind}]" \
                 if kind != "unrecognised" else f"ScenarioGenerator.{name}: while {cond} [{kind}]"
             if kind == "unrecognised":
